@@ -30,6 +30,8 @@ pub enum Op {
     CmdNb { text: String },
     /// execute a command line with a given output format and keep the raw bytes (hex)
     CmdRaw { text: String, fmt: Fmt },
+    /// execute in a spawned task so that a panic inside parse/dispatch is contained
+    CmdIsolated { text: String },
     Barrier,
     Compact { shard: usize },
     CompactAll,
@@ -388,6 +390,25 @@ async fn interpret(
                     Ok(Err(e)) => st.note = e,
                     Err(_) => st.blocked = true,
                 }
+            }
+            Op::CmdIsolated { text } => {
+                let s2 = sys.clone();
+                let t2 = text.clone();
+                let h = tokio::spawn(async move { s2.exec(&t2).await });
+                match tokio::time::timeout(HORIZON, h).await {
+                    Ok(Ok(r)) => st.replies.push(r),
+                    Ok(Err(e)) => {
+                        st.note = if e.is_panic() {
+                            let p = e.into_panic();
+                            let m = p.downcast_ref::<String>().cloned().or_else(|| p.downcast_ref::<&str>().map(|s| s.to_string())).unwrap_or_else(|| "panic".into());
+                            format!("panic: {m}")
+                        } else {
+                            "task cancelled".to_string()
+                        }
+                    }
+                    Err(_) => st.blocked = true,
+                }
+                sys.barrier().await;
             }
             Op::Barrier => sys.barrier().await,
             Op::Compact { shard } => match tokio::time::timeout(HORIZON, sys.compact(*shard)).await {
